@@ -18,7 +18,8 @@ EXPLANATION = (
     'module functions, no clock/uuid/unseeded generators, no set-order dependence; (SIB) the three eval_bootstrap* '
     'routines put the same quantities into the covariance; (FWD) Result receives evaluations, ceilings, variances, dof. '
     'Numeric equality of stored values with a recomputation and the n_cv correction formula are NOT decided.'
-    ' Also: (LOOP-SHADOW) a loop target does not take the name of the collection it iterates (fitter list in crossval).')
+    ' Also: (LOOP-SHADOW) a loop target does not take the name of the collection it iterates (fitter list in crossval).'
+    " Round 6: (PAR-ACC) per-fold accumulators receive an entry on the same iterations; (MODEL-AXIS) scores taken from crossval(..).evaluations keep the model axis; (DOF) per arm of the boot_type chain; (NAME-KEY) no per-model table keyed by the model's name.")
 ASSUMPTIONS = [
     'bootstrap_sample* return (sample, [rdm_idx,] pattern_idx) as documented; components are tracked per call site',
     'np.random.<fn> module-level functions are the only accepted randomness (re-seedable by np.random.seed)',
